@@ -19,6 +19,14 @@ const MKT_F: Profile = Profile {
     name: "MKT",
     faults: true,
 };
+const TX: Profile = Profile {
+    name: "TX",
+    faults: false,
+};
+const TX_F: Profile = Profile {
+    name: "TX",
+    faults: true,
+};
 
 pub fn plan(id: &str) -> Option<Plan> {
     Some(match id {
@@ -94,11 +102,27 @@ pub fn plan(id: &str) -> Option<Plan> {
             thorough_runs: 40_000,
             rule: "seeded runs of the market profile (fault-free and fault-injecting halves); one evaluation = one bankruptcy settlement (accepted or rejected) judged against the reference bankruptcy spec in its three insurance regimes, plus killed-state permanence checked in every later state; distinct = regime x signer class x #depositors",
         },
+        "C10" => Plan {
+            id: "C10",
+            level: "exploration",
+            profiles: vec![TX, TX_F],
+            quick_runs: 1600,
+            thorough_runs: 40_000,
+            rule: "seeded runs of the transaction-shape profile (shape faults: missing/misplaced/repeated start or end, forbidden inner instruction, foreign/failing program, CPI wrapper; fault-free and fault-injecting halves); one evaluation = one transaction containing a receivership start or end (committed or rejected); committed ones must be in the reference acceptor's language and satisfy the end-state inequalities on the reference model; distinct = transaction shape word x verdict",
+        },
+        "C11" => Plan {
+            id: "C11",
+            level: "exploration",
+            profiles: vec![TX, TX_F],
+            quick_runs: 1600,
+            thorough_runs: 40_000,
+            rule: "seeded runs of the transaction-shape profile (shape faults: missing/misplaced/repeated start or end, forbidden inner instruction, foreign/failing program, CPI wrapper; fault-free and fault-injecting halves); one evaluation = one transaction containing a flash-loan start or end; distinct = transaction shape word x verdict",
+        },
         _ => return None,
     })
 }
 
-pub const ALL: &[&str] = &["C01", "C02", "C03", "C04", "C05", "C06", "C07", "C16", "C17"];
+pub const ALL: &[&str] = &["C01", "C02", "C03", "C04", "C05", "C06", "C07", "C10", "C11", "C16", "C17"];
 
 pub const ASSUMPTIONS: &[&str] = &[
     "native x86-64 build of the program (same Rust source, overflow-checks on) instead of SBF; compute-unit, heap and stack limits are not modelled",
